@@ -1338,12 +1338,23 @@ func (m *poolModel) checkNilPool(f *ssa.Function) {
 	okFill := false
 	for _, w := range writes {
 		ia := w.Addr.(*ssa.IndexAddr)
-		ph, isPhi := ia.Index.(*ssa.Phi)
+		idx := ia.Index
+		ph, isPhi := idx.(*ssa.Phi)
+		if !isPhi {
+			// `for i := range results`: go/ssa rotates the loop, the index is phi+1 with the phi starting at -1
+			if bo, ok := idx.(*ssa.BinOp); ok && bo.Op == token.ADD {
+				if p2, ok := bo.X.(*ssa.Phi); ok {
+					if one, ok := constInt(bo.Y); ok && one == 1 {
+						ph, isPhi = p2, true
+					}
+				}
+			}
+		}
 		tc, _ := resolveLoad(w.Val).(*ssa.Call)
 		if !isPhi || tc == nil || m.isTaskCall(tc) == nil {
 			continue
 		}
-		if len(tc.Call.Args) == 1 && tc.Call.Args[0] != ssa.Value(ph) {
+		if len(tc.Call.Args) == 1 && tc.Call.Args[0] != idx {
 			continue // parallelize: argument must be the slot index
 		}
 		// loop bound and unit step
@@ -1355,8 +1366,8 @@ func (m *poolModel) checkNilPool(f *ssa.Function) {
 				}
 			}
 		}
-		for _, ref := range *ph.Referrers() {
-			if bo, ok := ref.(*ssa.BinOp); ok && bo.Op == token.LSS && bo.X == ssa.Value(ph) {
+		for _, ref := range *idx.Referrers() {
+			if bo, ok := ref.(*ssa.BinOp); ok && bo.Op == token.LSS && bo.X == idx {
 				if isLenOf(bo.Y, ia.X) || stripConv(bo.Y) == ssa.Value(g.Params[len(g.Params)-1]) {
 					bound = true
 				}
